@@ -4,6 +4,10 @@
 //! (replaying TLC-exported scenarios or seeded random histories) and records one ndjson
 //! event per specification action with arguments, reply and projected abstract state.
 mod drivers;
+mod problems;
+mod problems_cond;
+mod problems_ops;
+mod problems_var;
 mod named;
 mod runproblems;
 mod tagproblem;
@@ -22,6 +26,12 @@ fn main() {
 fn run(args: &util::Args) -> usize {
     match args.driver.as_str() {
         "registry" => drivers::registry::main(args),
+        "operators" => drivers::operators::main(args),
+        "objective" => drivers::objective::main(args),
+        "boundary" => drivers::boundary::main(args),
+        "conditions" => drivers::conditions::main(args),
+        "variation" => drivers::variation::main(args),
+        "determinism" => drivers::determinism::main(args),
         "memory" => drivers::memory::main(args),
         "templates" => drivers::templates::main(args),
         "exec" => drivers::exec::main(args),
